@@ -287,10 +287,45 @@ def _sr_effect(it, env):
 # reference writers (proved: they write exactly the path they are given)
 # ---------------------------------------------------------------------------
 
+@specfn
+def written_data_is(it, path, value):
+    """One write to the file opened at `path`, and what was written is `value` itself."""
+    if it.ghost.get('actual_result_given') is None:
+        return True       # at a call site: the clause is about the writer's own body and says nothing to callers
+    ws = [e for e in it.path.events if e[0] == 'write']
+    from pyvc.ops import values_equal, is_strlike
+    if len(ws) != 1:
+        return False
+    same_file = True if ws[0][1] is path else values_equal(it, ws[0][1], path)
+    data = ws[0][2]
+    if data is value:
+        return same_file
+    if is_strlike(data) and is_strlike(value):
+        from pyvc.ops import zbool
+        import z3 as _z3
+        return SBool(_z3.And(zbool(same_file), zbool(values_equal(it, data, value))))
+    return False
+
+
+ENV['written_data_is'] = written_data_is
+
+
+@specfn
+def actual_result_given(it):
+    """The `result` argument of the writer (the name `result` in a postcondition is the return value)."""
+    return it.ghost.get('actual_result_given')
+
+
+ENV['actual_result_given'] = actual_result_given
+
 contract(RT + 'ReferenceTest._write_reference_result', props=['C10'],
-         params=dict(result=T.opaque, reference_path=T.str, binary=T.bool, lstrip=T.bool, rstrip=T.bool),
+         params=dict(result=T.union(T.str, T.opaque), reference_path=T.str, binary=T.bool, lstrip=T.bool, rstrip=T.bool),
          self_view=reftest_view, spec_env=ENV,
-         ensures=[('writes-exactly-the-reference', 'reference_writes_are([reference_path])')])
+         on_entry=lambda it, senv: it.ghost.__setitem__('actual_result_given', senv['result']),
+         ensures=[('writes-exactly-the-reference', 'reference_writes_are([reference_path])'),
+                  # "a regenerated reference passes": the comparison strips per line, so the reference must hold the
+                  # actual result as it is, whatever the stripping options
+                  ('the-reference-holds-the-actual-result-unaltered', 'written_data_is(reference_path, actual_result_given())')])
 
 contract(RT + 'ReferenceTest._write_reference_file', props=['C10'],
          params=dict(actual_path=T.str, reference_path=T.str, binary=T.bool, lstrip=T.bool, rstrip=T.bool),
